@@ -4,6 +4,7 @@ package bpv7
 
 import (
 	"bytes"
+	"io"
 
 	"github.com/dtn7/cboring"
 	verif "github.com/dtn7/dtn7-go/pkg/zzverif"
@@ -174,5 +175,93 @@ func H04_BundleTruncate() {
 	if err == nil && b.IsAdministrativeRecord() {
 		_, _ = b.AdministrativeRecord()
 	}
+	verif.Reach("end")
+}
+
+func encOf(m interface{ MarshalCbor(w io.Writer) error }) []byte {
+	var w bytes.Buffer
+	if err := m.MarshalCbor(&w); err != nil {
+		verif.Assert(false, "template marshals")
+	}
+	return append([]byte{}, w.Bytes()...)
+}
+
+// H04_WideHeaders: otherwise valid messages in which one array / map count or byte / text string length is
+// re-encoded as an arbitrary 64-bit value (every such header of every template, one at a time): whole bundles (two data
+// templates and an administrative-record bundle, decoded as the node does on reception) and the encodings of the
+// nested decoders on their own (status report, administrative record, DTLSR and PRoPHET blocks with two entries,
+// signature, hop count and previous node blocks, bundle ID, endpoint IDs, primary and canonical blocks). Obligations:
+// no panic, the allocation policy, and the loop policy (no loop runs for a count from the input beyond
+// max(1024, 64*len(input)) iterations).
+func H04_WideHeaders() {
+	registerRoutingBlocks()
+	a, b := MustNewEndpointID("dtn://a/"), MustNewEndpointID("dtn://b/")
+	which := verif.Choose("which", 14)
+	var enc []byte
+	var dec func(r *bytes.Reader)
+	switch which {
+	case 0, 1:
+		enc = serialised(tmplBundle(which))
+		dec = func(r *bytes.Reader) { _, _ = ParseBundle(r) }
+	case 2:
+		enc = adminTemplate()
+		dec = func(r *bytes.Reader) {
+			if pb, err := ParseBundle(r); err == nil && pb.IsAdministrativeRecord() {
+				_, _ = pb.AdministrativeRecord()
+			}
+		}
+	case 3:
+		sr := NewStatusReport(tmplBundle(1), ReceivedBundle, NoInformation, DtnTimeEpoch)
+		enc = encOf(sr)
+		dec = func(r *bytes.Reader) { var x StatusReport; _ = x.UnmarshalCbor(r) }
+	case 4:
+		sr := NewStatusReport(tmplBundle(0), DeletedBundle, LifetimeExpired, DtnTimeEpoch)
+		var w bytes.Buffer
+		_ = GetAdministrativeRecordManager().WriteAdministrativeRecord(sr, &w)
+		enc = append([]byte{}, w.Bytes()...)
+		dec = func(r *bytes.Reader) { _, _ = GetAdministrativeRecordManager().ReadAdministrativeRecord(r) }
+	case 5:
+		enc = encOf(NewDTLSRBlock(DTLSRPeerData{ID: a, Timestamp: 5, Peers: map[EndpointID]DtnTime{a: 0, b: 7}}))
+		dec = func(r *bytes.Reader) { var x DTLSRBlock; _ = x.UnmarshalCbor(r) }
+	case 6:
+		enc = encOf(NewProphetBlock(map[EndpointID]float64{a: 0.5, b: 0.25}))
+		dec = func(r *bytes.Reader) { var x ProphetBlock; _ = x.UnmarshalCbor(r) }
+	case 7:
+		enc = encOf(&SignatureBlock{PublicKey: make([]byte, 32), Signature: make([]byte, 64)})
+		dec = func(r *bytes.Reader) { var x SignatureBlock; _ = x.UnmarshalCbor(r) }
+	case 8:
+		enc = encOf(NewHopCountBlock(9))
+		dec = func(r *bytes.Reader) { var x HopCountBlock; _ = x.UnmarshalCbor(r) }
+	case 9:
+		enc = encOf(NewPreviousNodeBlock(a))
+		dec = func(r *bytes.Reader) { var x PreviousNodeBlock; _ = x.UnmarshalCbor(r) }
+	case 10:
+		id := tmplBundle(1).ID()
+		enc = encOf(&id)
+		dec = func(r *bytes.Reader) { var x BundleID; _ = x.UnmarshalCbor(r) }
+	case 11:
+		e := MustNewEndpointID("ipn:23.42")
+		if verif.Bool("dtnscheme") {
+			e = MustNewEndpointID("dtn://node/inbox")
+		}
+		enc = encOf(&e)
+		dec = func(r *bytes.Reader) { var x EndpointID; _ = x.UnmarshalCbor(r) }
+	case 12:
+		pb := tmplBundle(1).PrimaryBlock
+		enc = encOf(&pb)
+		dec = func(r *bytes.Reader) { var x PrimaryBlock; _ = x.UnmarshalCbor(r) }
+	case 13:
+		tb := tmplBundle(0)
+		cb := tb.CanonicalBlocks[verif.Choose("block", len(tb.CanonicalBlocks))]
+		enc = encOf(&cb)
+		dec = func(r *bytes.Reader) { var x CanonicalBlock; _ = x.UnmarshalCbor(r) }
+	}
+	hs := verif.CborHeaders(enc)
+	verif.Assume(len(hs) > 0)
+	p := hs[verif.Choose("header", len(hs))]
+	in := verif.WidenHeader(enc, p, verif.Bytes("arg", 8))
+	verif.InputLen(len(in))
+	verif.Observe("in", in)
+	dec(bytes.NewReader(in))
 	verif.Reach("end")
 }
